@@ -27,7 +27,7 @@ pub fn def() -> PropDef {
 
 fn meta(_ctx: &Ctx) -> EvidenceMeta {
     EvidenceMeta {
-        rule: "model trees of stack-neutral statements (const/drop, local get/set/tee, arithmetic, block / loop / if-else with empty or i32 result, br / br_if / br_table to any enclosing construct incl. the function, return, unreachable, dead code after branches) over 0-3 parameters and fresh locals; built through the builder API under a generated construction plan: per sequence a random insertion order realised with append and *_at positional inserts, per nested construct closure-nesting (block/loop_/if_else[_at]) or a dangling sequence filled immediately or at the very end and attached with instr/instr_at. non-trivial = depth>=2, a branch to a non-innermost label, a positional insert and a dangling sequence all occur; distinct by choice bytes. Oracle: decoded emitted body == the model's own in-order flattening (same operators and constants, nesting and block types, every branch depth = distance to the model's target, parameter i = local i, other locals mapped injectively with equal types); output validates.".into(),
+        rule: "model trees of stack-neutral statements (const/drop, local get/set/tee, arithmetic, block / loop / if-else with empty or i32 result, blocks and loops with 0-2 i32 parameters and 0-2 i32 results whose type comes from InstrSeqType::new, br / br_if / br_table to any enclosing construct incl. the function, return, unreachable, dead code after branches) over 0-3 parameters and fresh locals; built through the builder API under a generated construction plan: per sequence a random insertion order realised with append and *_at positional inserts, per nested construct closure-nesting (block/loop_/if_else[_at]) or a dangling sequence filled immediately or at the very end and attached with instr/instr_at; in half the cases some nested sequences are allocated before anything else (inside-out: a nested sequence is older than the sequence that encloses it). non-trivial = depth>=2, a branch to a non-innermost label, a positional insert and a dangling sequence all occur; distinct by choice bytes. Oracle: decoded emitted body == the model's own in-order flattening (same operators and constants, nesting and block types, every branch depth = distance to the model's target, parameter i = local i, other locals mapped injectively with equal types); output validates.".into(),
         assumptions: vec!["the model's flattening is computed before any walrus call and never consults walrus".into()],
         level: "exploration",
         exhaustive: false,
@@ -59,6 +59,9 @@ enum Node {
     Block(Vec<Node>, bool), // bool: result i32
     Loop(Vec<Node>),
     IfElse(Vec<Node>, Vec<Node>, bool),
+    /// block (kind 0) or loop (kind 1) with `p` i32 parameters and `r` i32
+    /// results: a multi-value sequence type made with `InstrSeqType::new`
+    Typed { kind: u8, body: Vec<Node>, p: usize, r: usize },
 }
 
 struct Gen<'a, 'b> {
@@ -70,6 +73,7 @@ struct Gen<'a, 'b> {
     budget: usize,
     nontrivial_br: bool,
     max_depth: usize,
+    typed: usize,
 }
 
 impl<'a, 'b> Gen<'a, 'b> {
@@ -84,7 +88,7 @@ impl<'a, 'b> Gen<'a, 'b> {
             }
             self.budget -= 1;
             let l = |g: &mut Self| -> usize { *g.ch.pick(&g.i32_locals) };
-            match self.ch.below(15) {
+            match self.ch.below(17) {
                 0 | 1 => {
                     let k = *self.ch.pick(crate::ch::I32_POOL);
                     out.push(Node::Leaf(Leaf::I32Const(k)));
@@ -169,6 +173,44 @@ impl<'a, 'b> Gen<'a, 'b> {
                     out.push(Node::Leaf(Leaf::LocalGet(a)));
                     out.push(Node::Leaf(Leaf::BrTable(ts, d)));
                 }
+                14 | 15 if depth < 6 => {
+                    let kind = if self.ch.chance(1, 4) { 1u8 } else { 0u8 };
+                    let (p, r) = *self.ch.pick(&[(1usize, 1usize), (1, 0), (2, 1), (2, 2), (1, 2), (0, 2)]);
+                    for _ in 0..p {
+                        if self.ch.bool() {
+                            let a = l(self);
+                            out.push(Node::Leaf(Leaf::LocalGet(a)));
+                        } else {
+                            let k = *self.ch.pick(crate::ch::I32_POOL);
+                            out.push(Node::Leaf(Leaf::I32Const(k)));
+                        }
+                    }
+                    let mut body = Vec::new();
+                    self.stmts(depth + 1, &mut body);
+                    // from p values on the stack to r values
+                    let mut have = p;
+                    if p == 1 && r == 1 {
+                        body.push(Node::Leaf(Leaf::I32Const(depth as i32)));
+                        body.push(Node::Leaf(Leaf::I32Add));
+                    }
+                    while have > r {
+                        if have >= 2 && self.ch.bool() {
+                            body.push(Node::Leaf(Leaf::I32Add));
+                        } else {
+                            body.push(Node::Leaf(Leaf::Drop));
+                        }
+                        have -= 1;
+                    }
+                    while have < r {
+                        body.push(Node::Leaf(Leaf::I32Const(7 + have as i32)));
+                        have += 1;
+                    }
+                    self.typed += 1;
+                    out.push(Node::Typed { kind, body, p, r });
+                    for _ in 0..r {
+                        out.push(Node::Leaf(Leaf::Drop));
+                    }
+                }
                 12 => out.push(Node::Leaf(if self.ch.bool() { Leaf::Return } else { Leaf::Unreachable })),
                 13 => {
                     // locals of other types: copy or initialise
@@ -210,6 +252,8 @@ pub enum Exp {
     Br(&'static str, u32),
     BrTable(Vec<u32>, u32),
     Open(&'static str, bool),
+    /// construct with a function-typed block type: (name, params, results)
+    OpenSig(&'static str, usize, usize),
 }
 
 /// `targets_result`: for every enclosing sequence (innermost last) whether a
@@ -254,6 +298,14 @@ fn flatten(nodes: &[Node], stack: &mut Vec<bool>, out: &mut Vec<Exp>) {
                 stack.pop();
                 out.push(Exp::Op("End"));
             }
+            Node::Typed { kind, body, p, r } => {
+                out.push(Exp::OpenSig(if *kind == 0 { "Block" } else { "Loop" }, *p, *r));
+                // a branch to a block carries its results, to a loop its parameters
+                stack.push(if *kind == 0 { *r > 0 } else { *p > 0 });
+                flatten(body, stack, out);
+                stack.pop();
+                out.push(Exp::Op("End"));
+            }
             Node::IfElse(c, e, res) => {
                 out.push(Exp::Open("If", *res));
                 stack.push(*res);
@@ -292,10 +344,17 @@ pub struct BuiltCase {
     pub dangling: usize,
     pub closures: usize,
     pub deferred: usize,
+    pub typed: usize,
+    pub pooled: usize,
 }
 
 struct Plan<'a, 'b> {
     ch: &'a mut Ch<'b>,
+    types: &'a mut ModuleTypes,
+    /// sequences allocated before anything was built (inside-out
+    /// construction: a nested sequence older than the one enclosing it)
+    pool: Vec<(InstrSeqType, InstrSeqId)>,
+    pooled: usize,
     locals: Vec<LocalId>,
     positional: usize,
     dangling: usize,
@@ -313,7 +372,60 @@ fn seq_ty(res: bool) -> InstrSeqType {
     }
 }
 
+fn sig_ty(types: &mut ModuleTypes, p: usize, r: usize) -> InstrSeqType {
+    InstrSeqType::new(types, &vec![ValType::I32; p], &vec![ValType::I32; r])
+}
+
+/// sequence types of all nested sequences of the model, children first
+fn nested_types(nodes: &[Node], types: &mut ModuleTypes, out: &mut Vec<InstrSeqType>) {
+    for n in nodes {
+        match n {
+            Node::Leaf(_) => {}
+            Node::Block(b, r) => {
+                nested_types(b, types, out);
+                out.push(seq_ty(*r));
+            }
+            Node::Loop(b) => {
+                nested_types(b, types, out);
+                out.push(seq_ty(false));
+            }
+            Node::IfElse(c, e, r) => {
+                nested_types(c, types, out);
+                nested_types(e, types, out);
+                out.push(seq_ty(*r));
+                out.push(seq_ty(*r));
+            }
+            Node::Typed { body, p, r, .. } => {
+                nested_types(body, types, out);
+                out.push(sig_ty(types, *p, *r));
+            }
+        }
+    }
+}
+
 impl<'a, 'b> Plan<'a, 'b> {
+    /// the type of a construct without parameters, written directly or
+    /// computed by `InstrSeqType::new`
+    fn simple_ty(&mut self, r: bool) -> InstrSeqType {
+        if self.ch.chance(1, 3) {
+            sig_ty(self.types, 0, r as usize)
+        } else {
+            seq_ty(r)
+        }
+    }
+
+    /// a dangling sequence of type `ty`: a pre-allocated one when the pool
+    /// has a match (3 times out of 4), else a fresh one
+    fn dangling_seq(&mut self, fb: &mut FunctionBuilder, ty: InstrSeqType) -> InstrSeqId {
+        let matches: Vec<usize> = self.pool.iter().enumerate().filter(|(_, (t, _))| *t == ty).map(|(i, _)| i).collect();
+        if !matches.is_empty() && self.ch.chance(3, 4) {
+            let i = *self.ch.pick(&matches);
+            self.pooled += 1;
+            return self.pool.remove(i).1;
+        }
+        fb.dangling_instr_seq(ty).id()
+    }
+
     fn target(&self, t: usize, ids: &[InstrSeqId], res: &[bool]) -> InstrSeqId {
         let n = ids.len();
         let t = t.min(n - 1);
@@ -459,13 +571,21 @@ impl<'a, 'b> Plan<'a, 'b> {
                     }
                 }
                 Node::Block(body, r) => {
-                    self.nested(fb, me, pos, use_at, 0, body, &[], *r, ids, res);
+                    let ty = self.simple_ty(*r);
+                    self.nested(fb, me, pos, use_at, 0, body, &[], ty, *r, ids, res);
                 }
                 Node::Loop(body) => {
-                    self.nested(fb, me, pos, use_at, 1, body, &[], false, ids, res);
+                    let ty = self.simple_ty(false);
+                    self.nested(fb, me, pos, use_at, 1, body, &[], ty, false, ids, res);
                 }
                 Node::IfElse(c, e, r) => {
-                    self.nested(fb, me, pos, use_at, 2, c, e, *r, ids, res);
+                    let ty = self.simple_ty(*r);
+                    self.nested(fb, me, pos, use_at, 2, c, e, ty, *r, ids, res);
+                }
+                Node::Typed { kind, body, p, r } => {
+                    let ty = sig_ty(self.types, *p, *r);
+                    let label_takes_values = if *kind == 0 { *r > 0 } else { *p > 0 };
+                    self.nested(fb, me, pos, use_at, *kind, body, &[], ty, label_takes_values, ids, res);
                 }
             }
             placed.push(k);
@@ -482,12 +602,12 @@ impl<'a, 'b> Plan<'a, 'b> {
         kind: u8,
         a: &[Node],
         b: &[Node],
+        ty: InstrSeqType,
         r: bool,
         ids: &mut Vec<InstrSeqId>,
         res: &mut Vec<bool>,
     ) {
         let style = self.ch.below(3); // 0 closure, 1 dangling filled now, 2 dangling filled at the end
-        let ty = seq_ty(r);
         if style == 0 {
             self.closures += 1;
             // closure-nested construction; the plan recursion happens inside
@@ -531,8 +651,8 @@ impl<'a, 'b> Plan<'a, 'b> {
             }
         } else {
             self.dangling += 1;
-            let sa = fb.dangling_instr_seq(ty).id();
-            let sb_id = if kind == 2 { Some(fb.dangling_instr_seq(ty).id()) } else { None };
+            let sa = self.dangling_seq(fb, ty);
+            let sb_id = if kind == 2 { Some(self.dangling_seq(fb, ty)) } else { None };
             // attach before or after filling, by choice
             let attach_first = self.ch.bool();
             let attach = |fb: &mut FunctionBuilder| {
@@ -615,10 +735,11 @@ pub fn build_case(bytes: &[u8]) -> BuiltCase {
         budget: 80,
         nontrivial_br: false,
         max_depth: 1,
+        typed: 0,
     };
     let mut body = Vec::new();
     g.stmts(1, &mut body);
-    let (depth, nontrivial_br) = (g.max_depth, g.nontrivial_br);
+    let (depth, nontrivial_br, typed) = (g.max_depth, g.nontrivial_br, g.typed);
     let mut expected = Vec::new();
     flatten(&body, &mut vec![false], &mut expected);
     expected.push(Exp::Op("End"));
@@ -629,8 +750,23 @@ pub fn build_case(bytes: &[u8]) -> BuiltCase {
     let args: Vec<LocalId> = locals[..n_params].to_vec();
     let mut fb = FunctionBuilder::new(&mut module.types, &param_tys, &[]);
     let entry = fb.func_body_id();
+    // inside-out construction: some nested sequences exist before the
+    // sequences that will enclose them
+    let mut pool = Vec::new();
+    if ch.chance(1, 2) {
+        let mut tys = Vec::new();
+        nested_types(&body, &mut module.types, &mut tys);
+        for ty in tys {
+            if ch.chance(1, 2) {
+                pool.push((ty, fb.dangling_instr_seq(ty).id()));
+            }
+        }
+    }
     let mut plan = Plan {
         ch: &mut ch,
+        types: &mut module.types,
+        pool,
+        pooled: 0,
         locals,
         positional: 0,
         dangling: 0,
@@ -644,7 +780,7 @@ pub fn build_case(bytes: &[u8]) -> BuiltCase {
     while let Some((sid, nodes, mut ids, mut res)) = plan.deferred.pop() {
         plan.build_seq(&mut fb, sid, &nodes, &mut ids, &mut res);
     }
-    let (positional_inserts, dangling, closures, deferred) = (plan.positional, plan.dangling, plan.closures, plan.deferred_count);
+    let (positional_inserts, dangling, closures, deferred, pooled) = (plan.positional, plan.dangling, plan.closures, plan.deferred_count, plan.pooled);
     let func = fb.finish(args, &mut module.funcs);
     module.exports.add("f", func);
     BuiltCase {
@@ -659,6 +795,8 @@ pub fn build_case(bytes: &[u8]) -> BuiltCase {
         dangling,
         closures,
         deferred,
+        typed,
+        pooled,
     }
 }
 
@@ -824,6 +962,24 @@ pub fn check(_ctx: &Ctx, input: &Input) -> CaseResult {
                     return Err(bad("branch-depth"));
                 }
             }
+            Exp::OpenSig(n, p, r) => {
+                if o.name != *n {
+                    return Err(bad("operator"));
+                }
+                let sig = match o.imms.first() {
+                    Some(Imm::Block(BlockTy::Func(i))) => d.types.get(*i as usize),
+                    _ => None,
+                };
+                let ok = sig
+                    .map(|s| s.params == vec![VT::I32; *p] && s.results == vec![VT::I32; *r])
+                    .unwrap_or(false);
+                if !ok {
+                    return Err(Failure::new(
+                        "flattening:block-type",
+                        format!("operator #{}: emitted {} (type {:?}) vs model {:?}", i, o.short(), sig, e),
+                    ));
+                }
+            }
             Exp::Open(n, r) => {
                 if o.name != *n {
                     return Err(bad("operator"));
@@ -854,6 +1010,12 @@ pub fn check(_ctx: &Ctx, input: &Input) -> CaseResult {
     if case.deferred > 0 {
         out.label("dangling-filled-at-the-end");
     }
+    if case.typed > 0 {
+        out.label("multi-value-sequence-type");
+    }
+    if case.pooled > 0 {
+        out.label("inside-out:nested-sequence-older-than-its-parent");
+    }
     if out.nontrivial && out.hash % 64 == 0 {
         out.sample = Some(json!({"operators": case.expected.len(), "depth": case.depth, "positional_inserts": case.positional_inserts,
             "dangling": case.dangling, "closures": case.closures, "deferred_fills": case.deferred,
@@ -864,7 +1026,7 @@ pub fn check(_ctx: &Ctx, input: &Input) -> CaseResult {
 
 fn same_shape(o: &crate::ops::Op, e: &Exp) -> bool {
     match e {
-        Exp::Op(n) | Exp::Local(n, _) | Exp::Br(n, _) | Exp::Open(n, _) => o.name == *n,
+        Exp::Op(n) | Exp::Local(n, _) | Exp::Br(n, _) | Exp::Open(n, _) | Exp::OpenSig(n, _, _) => o.name == *n,
         Exp::Const(_) => o.name == "I32Const",
         Exp::Const64(_) => o.name == "I64Const",
         Exp::ConstF32(_) => o.name == "F32Const",
